@@ -226,6 +226,15 @@ def char_in(c, vals):
     return SymBool(z3.Or(*[c == v for v in vals]))
 
 
+def char_between(c, lo, hi):
+    """lo <= c <= hi for a code point or a one-character string"""
+    if isinstance(c, str):
+        (c,) = chars_of(c)
+    if isinstance(c, int):
+        return lo <= c <= hi
+    return SymBool(z3.And(c >= lo, c <= hi))
+
+
 def seq_eq(a, b):
     """equality of two code point sequences: bool or SymBool"""
     if len(a) != len(b):
@@ -609,10 +618,16 @@ def sym_in(a, b):
     if isinstance(b, str):
         if isinstance(a, SymStr) or isinstance(b, SymStr):
             ac, bc = chars_of(a), chars_of(b)
+            alts = []
             for i in range(len(bc) - len(ac) + 1):
-                if truth(seq_eq(bc[i:i + len(ac)], ac)):
+                r = seq_eq(bc[i:i + len(ac)], ac)
+                if r is True:
                     return True
-            return False
+                if r is not False:
+                    alts.append(r.e)
+            if not alts:
+                return False
+            return truth(SymBool(z3.Or(*alts) if len(alts) > 1 else alts[0]))   # one decision: the result is only a bool
         return a in b
     if isinstance(b, dict):
         return dict_find(b, a) is not _MISSING
